@@ -16,6 +16,7 @@ import (
 	"github.com/ontio/ontology-crypto/keypair"
 	"github.com/ontio/ontology/account"
 	"github.com/ontio/ontology/common"
+	"github.com/ontio/ontology/common/config"
 	"github.com/ontio/ontology/core/store/leveldbstore"
 	"github.com/ontio/ontology/core/store/overlaydb"
 	"github.com/ontio/ontology/core/types"
@@ -119,7 +120,7 @@ func (w *aWorld) callOn(cache *storage.CacheDB, contract common.Address, method 
 		tx.Sigs = nil
 	}
 	sc := &smartcontract.SmartContract{
-		Config:  &smartcontract.Config{Time: aBaseTime + w.now, Height: 100, Tx: tx},
+		Config:  &smartcontract.Config{Time: aBaseTime + w.now, Height: config.GetNewOntIdHeight() + 100, Tx: tx},
 		CacheDB: cache,
 		Gas:     1 << 60,
 	}
@@ -261,7 +262,7 @@ func (w *aWorld) observe(pi, si int, res, errs string) (o aObs) {
 	}()
 	cache := storage.NewCacheDB(w.ovl)
 	sc := &smartcontract.SmartContract{
-		Config:  &smartcontract.Config{Time: aBaseTime + w.now, Height: 100, Tx: &types.Transaction{SignedAddr: []common.Address{}}},
+		Config:  &smartcontract.Config{Time: aBaseTime + w.now, Height: config.GetNewOntIdHeight() + 100, Tx: &types.Transaction{SignedAddr: []common.Address{}}},
 		CacheDB: cache, Gas: 1 << 60,
 	}
 	sc.PushContext(&context.Context{ContractAddress: w.app})
